@@ -19,4 +19,17 @@ def splitCmd (line : String) : String × String :=
   | [] => ("", "")
   | cmd :: _ => (cmd, (line.drop (cmd.length + 1)).toString)
 
+/-- tail-recursive hex parser for very long inputs (stream engine: messages up to 1 MiB). -/
+def bytesOfHexFast (s : String) : Option Bytes :=
+  if s = "-" then some [] else
+  let rec go (cs : List Char) (acc : Array UInt8) : Option (Array UInt8) :=
+    match cs with
+    | [] => some acc
+    | [_] => none
+    | a :: b :: rest =>
+      match hexVal a, hexVal b with
+      | some x, some y => go rest (acc.push (x * 16 + y).toUInt8)
+      | _, _ => none
+  (go s.toList #[]).map Array.toList
+
 end Driver
